@@ -95,7 +95,27 @@ class Engine:
         e = self.tu.strip(e, casts=True)
         if e is not None and e.get('kind') == 'DeclRefExpr':
             return e.get('referencedDecl', {}).get('id'), e.get('referencedDecl', {}).get('name')
+        if e is not None and e.get('kind') == 'MemberExpr' and e.get('referencedMemberDecl') in self.member_cursors():
+            base = self.tu.strip(self.tu.kids(e)[0], casts=True) if self.tu.kids(e) else None
+            if base is not None and base.get('kind') == 'CXXThisExpr':
+                # the cursor kept in a data member of a parser object (one object per parse): identified by the field
+                self.names.setdefault(e['referencedMemberDecl'], 'this->' + (e.get('name') or '?'))
+                return e['referencedMemberDecl'], 'this->' + (e.get('name') or '?')
         return None, None
+
+    def member_cursors(self):
+        """field id -> record id for the data members of cursor type of the records defined in the unit's own file"""
+        if not hasattr(self, '_mc'):
+            self._mc = {}
+            for r in self.tu.records.values():
+                for fl in r.get('fields', []):
+                    if fl.get('ct') in CURSOR_TYPES and not r.get('lambda') and 'xml' in r.get('q', ''):
+                        self._mc[fl['id']] = r['id']
+        return self._mc
+
+    def cursor_fields(self, f):
+        rid = f.get('recid')
+        return [fid for fid, r in self.member_cursors().items() if r == rid] if rid else []
 
     def read_of(self, e, st):
         """(var id, index) if e reads a byte through a tracked cursor"""
@@ -687,6 +707,29 @@ class Engine:
         st[('le', dst, src)] = 1
         st[('le', src, dst)] = 1
 
+    def cursor_result(self, st, dst, init):
+        """dst = f(...), f a function that returns a position of the scan (summarised as ('P', state, base)): dst gets that state and is
+        not in front of `base`"""
+        e = self.tu.strip(init, casts=True)
+        if e is None or e.get('kind') != 'CallExpr':
+            return False
+        r = self.vals(st).get(e['id'])
+        if not (isinstance(r, tuple) and r and r[0] == 'P'):
+            return False
+        st[('c', dst)] = r[1]
+        st.pop(('null', dst), None)
+        if r[2] is not None and r[2] != dst and ('c', r[2]) in st:
+            self.le_copy(st, dst, r[2])
+            for k in [k for k in st if isinstance(k, tuple) and k[0] in ('le', 'lt') and k[1] == dst and k[2] != dst]:
+                del st[k]                  # base <= dst only
+        else:
+            keep = r[2] == dst
+            for k in [k for k in st if isinstance(k, tuple) and k[0] in ('le', 'lt') and ((k[1] == dst and k[2] != dst) or
+                                                                                    (k[2] == dst and k[1] != dst and not keep))]:
+                del st[k]                  # dst = f(dst): moved forward by zero or more; otherwise nothing is known
+        st.pop(('len', dst), None)
+        return True
+
     @staticmethod
     def le_forward(st, v):
         """v moved forward by one or more: facts v <= x are lost (v < x weakens to v <= x when the step is one byte: the caller says so
@@ -773,7 +816,7 @@ class Engine:
         g = tu.cfg(f)
         heads = frozenset(h for (_, h) in g.back_edges())
         backs = set(g.back_edges())
-        params = [p['id'] for p in f.get('params', [])]
+        params = [p['id'] for p in f.get('params', [])] + self.cursor_fields(f)
         st0 = dict(entry)
         st0['$vals'] = ()
         st0['$P'] = frozenset()
@@ -788,6 +831,17 @@ class Engine:
         def transfer(blk, i, el, s):
             eng.steps += 1
             eng.cur_fn = f
+            if el[0] == 'I' and len(el) >= 3 and el[2] in eng.member_cursors():
+                # constructor initialiser of a member cursor: it takes the position of the cursor it is initialised from
+                st = dict(s)
+                src, _ = eng.decl_of(tu.node(el[1])) if tu.node(el[1]) is not None else (None, None)
+                eng.names.setdefault(el[2], 'this->' + str(el[3]))
+                if src is not None and ('c', src) in st:
+                    st[('c', el[2])] = st[('c', src)]
+                    eng.le_copy(st, el[2], src)
+                else:
+                    st[('c', el[2])] = (0, 0, 0, 0, ())
+                return [fz(st)]
             if el[0] != 'S':
                 return [s]
             n = tu.node(el[1])
@@ -802,6 +856,20 @@ class Engine:
                 st['$ret'] = eng.ev(ks[0], st) if ks else None
                 if ks and st['$ret'] is None and ('basic_string' in f.get('fty', '') or f.get('fty', '').startswith('std::string')):
                     st['$ret'] = eng.str_class(ks[0], st)
+                rt0_ = f.get('fty', '').split('(')[0].strip()
+                if ks and rt0_.endswith('*') and 'char' in rt0_:
+                    # a function that returns a position of the scan: the state of the returned cursor, and - when it is a by-value
+                    # parameter that only moved forward - the parameter whose original value it is not in front of
+                    rv_, _ = eng.decl_of(ks[0])
+                    if rv_ is not None and ('c', rv_) in st:
+                        isp_ = any(p_['id'] == rv_ for p_ in f.get('params', []))
+                        fwd_ = rv_ not in st.get('$dec', ())
+                        base_ = rv_ if (isp_ and fwd_) else None
+                        if base_ is None:
+                            for p_ in f.get('params', []):
+                                if ('le', p_['id'], rv_) in st and p_['id'] not in st.get('$dec', ()) and not eng.param_written(f, p_['id']):
+                                    base_ = p_['id']
+                        st['$ret'] = ('P', st[('c', rv_)], base_)
                 if ks and not f.get('fty', '').startswith('bool') and not f.get('fty', '').startswith('std::'):
                     c_ = eng.const_of(ks[0])
                     rt_ = f.get('fty', '').split('(')[0].strip()
@@ -943,6 +1011,8 @@ class Engine:
                             st[('null', v)] = st[('null', src)]
                     elif eng.search_result(st, v, ks[1]):
                         pass
+                    elif eng.cursor_result(st, v, ks[1]):
+                        moved(st)
                     else:
                         st[('c', v)] = (0, 0, 0, 0, ())
                         eng.le_forget(st, v)
@@ -967,6 +1037,8 @@ class Engine:
                             if ('null', src) in st:
                                 st[('null', vd['id'])] = st[('null', src)]
                         elif init is not None and eng.search_result(st, vd['id'], init):
+                            pass
+                        elif init is not None and eng.cursor_result(st, vd['id'], init):
                             pass
                         else:
                             lit = tu.strip(init, casts=True) if init is not None else None
@@ -1007,6 +1079,10 @@ class Engine:
                 return [fz(st)]
             if k in ('CallExpr', 'CXXMemberCallExpr', 'CXXOperatorCallExpr'):
                 return eng.do_call(f, n, st, moved)
+            if k in ('CXXConstructExpr', 'CXXTemporaryObjectExpr'):
+                cf_ = tu.callee_fn(n)
+                if cf_ is not None and eng.cursor_fields(cf_) and tu.cfg(cf_) is not None:
+                    return eng.do_call(f, n, st, moved)     # constructor of a parser object that keeps the cursor in a member
             return [s]
 
         def switch_labels(blk):
@@ -1115,6 +1191,17 @@ class Engine:
             self.pred_cache[key] = w
         return self.pred_cache[key]
 
+    def cursor_args(self, args, st, cf):
+        """the tracked cursors a call works on: cursor arguments, else the member cursor of the callee's object"""
+        out = []
+        for a2 in args:
+            v2, _ = self.decl_of(a2)
+            if v2 is not None and ('c', v2) in st:
+                out.append(v2)
+        if not out and cf is not None:
+            out = [fid for fid in self.cursor_fields(cf) if ('c', fid) in st]
+        return out
+
     def do_call(self, f, n, st, moved):
         tu = self.tu
         cf = tu.callee_fn(n)
@@ -1184,11 +1271,9 @@ class Engine:
                         except Exception:
                             first = ''
                         if first and ord(first) in DELIMS:
-                            for a2 in args:
-                                v2, _ = self.decl_of(a2)
-                                if v2 is not None and ('c', v2) in st:
-                                    self.delim_site(f, n, ord(first), st, v2, 'lit')
-                                    break
+                            for v2 in self.cursor_args(args, st, cf):
+                                self.delim_site(f, n, ord(first), st, v2, 'lit')
+                                break
                     else:
                         entry[('c', p['id'])] = (0, 0, 0, 0, ())
                     relevant = True
@@ -1197,14 +1282,23 @@ class Engine:
                 relevant = True
                 c = self.const_of(a)
                 if c is not None and (c & 0xff) in DELIMS:
-                    for a2 in args:
-                        v2, _ = self.decl_of(a2)
-                        if v2 is not None and ('c', v2) in st:
-                            self.delim_site(f, n, c & 0xff, st, v2, 'call')
-                            break
+                    for v2 in self.cursor_args(args, st, cf):
+                        self.delim_site(f, n, c & 0xff, st, v2, 'call')
+                        break
+        for fid in self.cursor_fields(cf):
+            if ('c', fid) in st:
+                entry[('c', fid)] = st[('c', fid)]
+                if ('len', fid) in st:
+                    entry[('len', fid)] = st[('len', fid)]
+                relevant = True
+            if ('c', fid) in st or cf.get('ctor'):
+                bind[fid] = fid
         if not relevant:
             return [fz(st)]
         argvar = {}
+        for fid in self.cursor_fields(cf):
+            if ('c', fid) in entry:
+                argvar[fid] = fid
         for p, a in zip(ps, args):
             if ('c', p['id']) in entry:
                 v, nm = self.decl_of(a)
@@ -1235,7 +1329,9 @@ class Engine:
                         del s2[k_]        # moved backward by an unknown number of bytes
             if adv:
                 moved(s2)
-            if isinstance(ret, bool) or ret in ('S0', 'S1') or (isinstance(ret, tuple) and ret and ret[0] == 'E'):
+            if isinstance(ret, tuple) and ret and ret[0] == 'P':
+                ret = ('P', ret[1], argvar.get(ret[2]))
+            if isinstance(ret, bool) or ret in ('S0', 'S1') or (isinstance(ret, tuple) and ret and ret[0] in ('E', 'P')):
                 vals = self.vals(s2)
                 vals[n['id']] = ret
                 s2['$vals'] = fz(vals)
@@ -1744,6 +1840,41 @@ def check_outparams(ctx, tu):
                 continue
             is_bool = f['fty'].startswith('bool')
             bad = [(ret, w) for (ret, w) in info['outcomes'] if not w and (ret is not False if is_bool else True)]
+            if bad and is_bool and all(w for (ret, w) in info['outcomes'] if ret is False) and \
+                    all(ret is True for (ret, w) in info['outcomes'] if not w):
+                # the opposite convention: `true` means "nothing to report", the parameter is filled on `false`.  No earlier value can
+                # survive if every call hands over a variable that was declared (default-constructed) just for this call.
+                pidx = [i for i, q in enumerate(f['params']) if q['id'] == p['id']][0]
+                fresh = True
+                ncall = 0
+                for g in reachable_fns(tu, entry[0]):
+                    body = tu.body(g)
+                    if body is None or tu.fn_file(g) != XML_FILE:
+                        continue
+                    order = list(tu.walk(body))
+                    for i, x in enumerate(order):
+                        if x.get('kind') == 'CallExpr' and (tu.callee_fn(x) or {}).get('id') == f['id']:
+                            ncall += 1
+                            args = tu.call_parts(x)[2]
+                            d = tu.ref_decl(args[pidx]) if pidx < len(args) else None
+                            dn = tu.nodes.get(d) if d else None
+                            inside = {y['id'] for y in tu.walk(x)}
+                            if dn is None or dn.get('kind') != 'VarDecl' or tu.kids(dn) and any(
+                                    k.get('kind') not in ('CXXConstructExpr',) or tu.kids(k) for k in tu.kids(dn)):
+                                fresh = False
+                                continue
+                            seen_decl = False
+                            for y in order[:i]:
+                                if y is dn:
+                                    seen_decl = True
+                                elif seen_decl and y.get('kind') == 'DeclRefExpr' and y.get('referencedDecl', {}).get('id') == d and y['id'] not in inside:
+                                    fresh = False
+                            if not seen_decl:
+                                fresh = False
+                if fresh and ncall:
+                    ctx.ok(R4, inst, 'filled when the function returns false (true reports a match and leaves it alone); each of the %d call(s) '
+                           'passes a variable default-constructed for that call, so no earlier value can survive' % ncall, tu.fn_loc(f))
+                    continue
             if bad:
                 ctx.violation(R4, inst, 'the function can return %s without having assigned its output parameter `%s`: the caller '
                               'keeps the value of an earlier parse step' % ('successfully' if not is_bool else 'true/unknown', p['name']),
